@@ -207,6 +207,28 @@ fn cli_case(cli: &str, dir: &str, idx: u64, text: &str, tts: &[TT]) -> Vec<(Stri
             }
         }
     }
+    // an import whose --export names the imported file itself (directly and through ./): the file is an existing export
+    // file like any other - neither its bytes nor its modification time may change
+    {
+        let meta_before = std::fs::metadata(&exp).and_then(|m| m.modified()).ok();
+        let dotted = match exp.rfind('/') {
+            Some(i) => format!("{}/./{}", &exp[..i], &exp[i + 1..]),
+            None => format!("./{}", exp),
+        };
+        for target in [exp.clone(), dotted] {
+            let o = run_cli(cli, &["--lib".into(), "naive".into(), "--import".into(), "--grd".into(), "--export".into(), target.clone(), "-q".into(), exp.clone()]);
+            if o.code != Some(0) {
+                out.push(("cli:import-export-onto-itself:exit".into(), format!("--import with --export {} (the imported file) exits with {:?}", target, o.code)));
+            }
+            let now = std::fs::read(&exp).unwrap_or_default();
+            let meta_now = std::fs::metadata(&exp).and_then(|m| m.modified()).ok();
+            if now != exported || meta_now != meta_before {
+                out.push(("cli:overwrote-existing-file".into(), format!("--import X --export {} rewrote the existing export file X (bytes {}, modification time {})", target, if now != exported { "changed" } else { "equal" }, if meta_now != meta_before { "changed" } else { "equal" })));
+                let _ = std::fs::write(&exp, &exported);
+                break;
+            }
+        }
+    }
     let wants: Vec<(&str, Vec<Interp>)> = vec![
         ("--grd", vec![grounded(tts)]),
         ("--com", complete(tts).into_iter().collect()),
